@@ -631,7 +631,7 @@ pub fn run_executor(cfg: &ExecConfig) -> ExecResult {
         t += 1;
         // monitors: incomplete instances whose bound has expired at time t
         if res.violation.is_none() {
-            let mut check = |c: usize, inst: &Inst, res: &mut ExecResult| {
+            let check = |c: usize, inst: &Inst, res: &mut ExecResult| {
                 if let Some(b) = cfg.cb_bounds[c] {
                     if t >= inst.activation + b {
                         note_violation(
@@ -690,8 +690,4 @@ pub fn bits_text(b: &[bool]) -> String {
 
 pub fn parse_bits(s: &str) -> Vec<bool> {
     s.trim().chars().map(|c| c == '1').collect()
-}
-
-pub fn arr_desc_of(cb: &CbDesc) -> &ArrDesc {
-    cb.arr.as_ref().expect("head callback")
 }
